@@ -11,6 +11,9 @@ import (
 
 var scanReaders = []string{"br-seek", "br-plain", "v1"}
 
+// skipping is scanning too: the same truncations through pure SkipNext iterations
+var skipReaders = []string{"sk-seek", "sk-plain"}
+
 // refSections walks `input` with a tolerant, go-car-independent parser and reports (code, data)
 // of every section it can delimit, so that hash lines can be emitted for the model.
 func refSections(input []byte, visit func(code uint64, data []byte)) {
@@ -271,7 +274,7 @@ func prefixCutCases(g *Gen, o *Out) {
 			for _, tr := range []bool{false, true} {
 				ro := defaultReadOpts()
 				ro.zeroEOF, ro.trusted = z, tr
-				for _, rd := range scanReaders {
+				for _, rd := range append(append([]string{}, scanReaders...), skipReaders...) {
 					if rd == "v1" && ver == 2 {
 						continue
 					}
@@ -338,6 +341,16 @@ func famC02(g *Gen, o *Out, n int, thorough bool) {
 			res := runReader(rd, ro, arch[:k])
 			o.Line(fmt.Sprintf("mut rd=%s %s %s trunc=%d", rd, ro, desc, k), res+" archok=1")
 			o.Count("trunc/" + rd)
+		}
+		// the same cuts through a pure SkipNext iteration (seekable: block data is seeked over, so a
+		// cut inside it is only visible through the reader's notion of where the source ends)
+		srd := skipReaders[g.pick(2)]
+		for k := 0; k <= pend; k += stride {
+			if k == pend && ver == 2 {
+				break
+			}
+			o.Line(fmt.Sprintf("mut rd=%s %s %s trunc=%d", srd, ro, desc, k), runReader(srd, ro, arch[:k])+" archok=1")
+			o.Count("trunc/" + srd)
 		}
 		rd = pickRd()
 		for i := 0; i < pend; i += stride {
